@@ -199,19 +199,20 @@ func (bt bitmap) glyphData(gid gID, xPpem, yPpem uint16) (GlyphBitmap, error) {
 	return out, nil
 }
 
-// look for data in 'glyf', 'CFF ' and 'CFF2' tables
+// look for data in 'glyf', 'CFF ' and 'CFF2' tables,
+// in the same order as [Face.GlyphExtents] (and harfbuzz)
 func (f *Face) outlineGlyphData(gid gID) (GlyphOutline, bool) {
-	out, err := f.glyphDataFromCFF1(gid)
+	out, err := f.glyphDataFromGlyf(gid)
+	if err == nil {
+		return out, true
+	}
+
+	out, err = f.glyphDataFromCFF1(gid)
 	if err == nil {
 		return out, true
 	}
 
 	out, err = f.glyphDataFromCFF2(gid)
-	if err == nil {
-		return out, true
-	}
-
-	out, err = f.glyphDataFromGlyf(gid)
 	if err == nil {
 		return out, true
 	}
